@@ -227,8 +227,23 @@ impl PartialOrd for Cell {
 }
 
 impl Ord for Cell {
+    // order used for map keys and sort: values of one type compare by content, so that only
+    // values that are `==` compare Equal (values of different types are still unordered)
     fn cmp(&self, other: &Cell) -> Ordering {
-        self.partial_cmp(other).unwrap_or(Ordering::Equal)
+        fn fun_key(f: &Xfn) -> (u8, usize) {
+            match f {
+                Xfn::Interp(x) => (0, *x),
+                Xfn::Native(x) => (1, x.0 as usize),
+            }
+        }
+        match (self.value(), other.value()) {
+            (Cell::Flag(x), Cell::Flag(y)) => x.cmp(y),
+            (Cell::Bitstr(x), Cell::Bitstr(y)) => x.bits().cmp(y.bits()),
+            (Cell::Vector(x), Cell::Vector(y)) => x.iter().cmp(y.iter()),
+            (Cell::Map(x), Cell::Map(y)) => x.iter().cmp(y.iter()),
+            (Cell::Fun(x), Cell::Fun(y)) => fun_key(x).cmp(&fun_key(y)),
+            _ => self.partial_cmp(other).unwrap_or(Ordering::Equal),
+        }
     }
 }
 impl Eq for Cell {}
